@@ -53,6 +53,7 @@ class R:
         return f"({self.e(x[1])} ? {self.e(x[2])} : {self.e(x[3])})"
 
     ELSEIF = "} else if ("
+    FOREVER = "while (true)"
 
     def ifchain(self, st, ind):
         out = []
@@ -104,6 +105,8 @@ class R:
             return self.for_(st, ind)
         if k == "ifchain":
             return self.ifchain(st, ind)
+        if k == "loop":
+            return [f"{ind}{self.FOREVER} {{"] + self.block(st[1], ind + "    ") + [f"{ind}}}"]
         if k == "aug":
             return self.aug(st, ind)
         if k in ("inc", "dec"):
@@ -145,7 +148,12 @@ class Py(R):
             return [f"{ind}while {self.e(st[1])}:"] + self.block(st[2], ind + "    ")
         if k == "for":
             return [f"{ind}for {st[1]} in range({self.e(st[2])}, {self.e(st[3])}):"] + self.block(st[4], ind + "    ")
+        if k == "loop":
+            return [f"{ind}while True:"] + self.block(st[1], ind + "    ")
         return R.s(self, st, ind)
+
+    def block(self, stmts, ind):
+        return R.block(self, stmts, ind) or [f"{ind}pass"]
 
     def tern(self, x):
         return f"({self.e(x[2])} if {self.e(x[1])} else {self.e(x[3])})"
@@ -225,6 +233,7 @@ class Java(R):
 
 class C(R):
     TRUE, FALSE = "1", "0"
+    FOREVER = "while (1)"
 
     def program(self, funcs):
         out = []
@@ -265,6 +274,8 @@ class Go(R):
         if k == "for":
             v = st[1]
             return [f"{ind}for {v} := {self.e(st[2])}; {v} < {self.e(st[3])}; {v}++ {{"] + self.block(st[4], ind + "    ") + [f"{ind}}}"]
+        if k == "loop":
+            return [f"{ind}for {{"] + self.block(st[1], ind + "    ") + [f"{ind}}}"]
         return R.s(self, st, ind)
 
     def ifchain(self, st, ind):
@@ -403,6 +414,11 @@ def core_programs():
     add("while_not_cond", "while with a negated condition", [("let", "i", I(0)), ("while", ("not", B(">=", V("i"), a)), [("aug", "i", "+", I(1))]), ("ret", V("i"))], bounds=lb)
     add("for_aug_body", "counted for with compound assignment", [("let", "s", I(1)), ("for", "i", I(0), a, [("aug", "s", "*", I(2)), ("aug", "s", "-", V("i"))]), ("ret", V("s"))], bounds=lb)
     add("for_lo_hi", "counted for from a to a + b", [("let", "s", I(0)), ("for", "i", b, B("+", a, b), [("aug", "s", "+", V("i"))]), ("ret", V("s"))], bounds=lb)
+    add("empty_then", "if with an empty block, code after it", [("let", "x", a), ("if", c, [], None), ("set", "x", B("+", V("x"), I(1))), ("out", V("x")), ("ret", V("x"))])
+    add("empty_else", "if/else with an empty else block", [("let", "x", a), ("if", c, [("set", "x", b)], []), ("set", "x", B("+", V("x"), I(1))), ("out", V("x")), ("ret", V("x"))])
+    add("empty_then_in_loop", "empty if block inside a loop", [("let", "s", I(0)), ("for", "i", I(0), a, [("if", B("==", V("i"), b), [], None), ("aug", "s", "+", I(1))]), ("ret", V("s"))], bounds=lb)
+    add("loop_forever_break", "unconditional loop left by break", [("let", "i", I(0)), ("loop", [("inc", "i"), ("out", V("i")), ("if", B(">=", V("i"), a), [("break",)], None)]), ("ret", V("i"))], bounds=lb)
+    add("loop_forever_return", "unconditional loop left by return", [("let", "i", b), ("loop", [("if", B(">=", V("i"), a), [("ret", V("i"))], None), ("inc", "i")])], bounds=lb)
     add("return_expr_call", "return of a compound expression", [("ret", B("-", B("*", a, I(3)), ("call", "g", [b, ("neg", a)])))], extra=[g])
     add("call_nested", "call as argument of a call", [("ret", ("call", "g", [("call", "g", [a, b]), ("call", "g", [b, I(1)])]))], extra=[g])
     return P
